@@ -16,13 +16,17 @@ AWKWARD = ['(', ')', '[', ']', '{', '}', '<', '>', '/', '\\/', '|', '&', "'", '"
            'x)[conj]', '(<L', 'a<b', 'a>b', '<<>>', 'a(b', 'a)b', '(a', 'a)', 'it\'s', 'R&D', 'Ph.D.', '2,000', 'naïve', '彼',
            '走る', 'Ω', '%', '#1', '=', 'a=b,c=d', 'x]', '[x', 'S[dcl]', '*', '**', '?', ';', ':', '@', '~', 'T', 'L', '0', '1',
            'the', 'cat', 'sat', 'on', 'mat', 'Mr.', 'co-op', 'a_b', '_x', '-', 'x-', '&amp;', '<b>', "''", '``']
+# words and tags containing Unicode white space that is not the ASCII blank: one field of every text format
+UNISPACE = ['10\u00a0000', 'a\u3000b', 'x\u2003y', 'New\u00a0York', 'N\u00a0P']
 PLAIN = ['the', 'cat', 'sat', 'on', 'mat', 'dogs', 'run', 'fast', 'John', 'loves', 'Mary', 'and', 'quickly', 'very']
 JA_WORDS = ['彼', '走る', 'は', 'が', 'を', '本', '読む', 'た', '。', '東京', 'に', '行く', 'ない', '美しい', '花']
 
 
-def make_token(rng, lang, word=None, awkward=0.3, attrs=None):
+def make_token(rng, lang, word=None, awkward=0.3, attrs=None, unispace=0.0):
     if word is None:
-        if rng.random() < awkward:
+        if unispace and rng.random() < unispace:
+            word = rng.choice(UNISPACE)
+        elif rng.random() < awkward:
             word = rng.choice(AWKWARD)
         else:
             word = rng.choice(JA_WORDS if lang == 'ja' else PLAIN)
@@ -191,8 +195,10 @@ def clone(t):
 
 
 def token_ok_strict(tok):
-    """the guard of the text formats: printable non-blank values, no backslash"""
+    """the guard of the text formats (`TextProps.PlainWord` of the Lean theorems): non-empty values
+    without the ASCII blank / tab / line breaks and without backslash. Other Unicode white space
+    (U+00A0, U+3000, ...) is ordinary text to the formats, whose fields end at the ASCII blank"""
     for k, v in tok.items():
-        if not isinstance(v, str) or v == '' or any(c.isspace() for c in v) or '\\' in v:
+        if not isinstance(v, str) or v == '' or any(c in ' \t\n\r\x0b\x0c\x1c\x1d\x1e\x1f\x85\u2028\u2029' for c in v) or '\\' in v:
             return False
     return True
